@@ -64,6 +64,9 @@ type childResult struct {
 	FirstCol  int    `json:"first_col,omitempty"`
 	// validator.VerifCounters consumed by this run (only with build tag c12walks)
 	Counters []int64 `json:"counters,omitempty"`
+	// heap allocated by the measured call (runtime.MemStats deltas)
+	AllocBytes uint64 `json:"alloc_bytes,omitempty"`
+	Mallocs    uint64 `json:"mallocs,omitempty"`
 }
 
 func countSels(doc *ast.Document) int {
@@ -115,9 +118,11 @@ func runWork(c Case, src string, s *graphql.Schema) childResult {
 	}
 	before := atomic.LoadInt64(&validator.VerifCostVisits)
 	c0 := countersSnapshot()
+	a0 := allocNow()
 	t0 := time.Now()
 	doc, errs := graphql.ParseAndValidate(src, s, nil, rules...)
 	r.ElapsedNs = time.Since(t0).Nanoseconds()
+	r.AllocBytes, r.Mallocs = a0.since()
 	r.Counters = countersDelta(c0)
 	r.Visits = atomic.LoadInt64(&validator.VerifCostVisits) - before
 	r.Errs = len(errs)
@@ -623,6 +628,9 @@ func (h *harness) workCase(c Case) (childOutcome, workVerdict) {
 	if c.Cost && o.Res.Sels > 0 && o.Res.Visits > selBound(o.Res.Sels) {
 		return o, workVerdict{"visits-bound", fmt.Sprintf("%s n=%d: the cost walk visited %d fields/spreads of a document that has %d (bound %d): the work is not polynomial in the document", c.Family, c.N, o.Res.Visits, o.Res.Sels, selBound(o.Res.Sels))}
 	}
+	if s := countedWork(o.Res); len(o.Res.Counters) > 0 && s > 0 && o.Res.AllocBytes > allocFixed+allocFactor*uint64(s) {
+		return o, workVerdict{"collection-size", fmt.Sprintf("%s n=%d (cost rule %v): graphql.ParseAndValidate allocated %d bytes for a document of %d bytes whose counted work (document bytes + loop-head counters + cost-walk visits) is %d steps — more than %d bytes per step: some rule builds a collection whose size is not accounted for by its counted steps (the counters are tied to the polynomially bounded Lean models; the collections are not polynomial in them)", c.Family, c.N, c.Cost, o.Res.AllocBytes, o.Res.Bytes, s, allocFactor)}
+	}
 	return o, workVerdict{}
 }
 
@@ -714,9 +722,15 @@ func (h *harness) workFamily(f family) {
 		if o.Status == "ok" && (!(f.valid || f.cyclic) || n <= modelWidth) {
 			h.walksCompare(c, o.Res)
 		}
+		if o.Status == "ok" {
+			h.allocObserve(c, o.Res)
+			if len(o.Res.Counters) > 0 {
+				run.Oblige("oracle: collection sizes — heap allocated by ParseAndValidate ≤ 8 MiB + 4096 bytes × (document bytes + Σ loop-head counters tied to the Lean step models + cost-walk visits)", "oracle", 1, v.mode != "collection-size", v.what)
+			}
+		}
 		if v.mode != "" {
 			run.Violate("property", v.mode+": "+v.what, key2, false, vc)
-			if v.mode == "timeout" || v.mode == "crash" || v.mode == "visits-bound" || v.mode == "rejected-valid" || (f.valid && v.mode == "depth-error") {
+			if v.mode == "timeout" || v.mode == "crash" || v.mode == "visits-bound" || v.mode == "collection-size" || v.mode == "rejected-valid" || (f.valid && v.mode == "depth-error") {
 				// larger sizes can only be worse; do not burn the budget again
 				run.Note("%s: sizes above n=%d skipped after %s", f.name, n, v.mode)
 				break
@@ -1003,6 +1017,7 @@ func main() {
 		}
 	}
 	lap("walk")
+	h.allocReport()
 	run.Finish(h.model)
 }
 
